@@ -9,4 +9,4 @@ for p in "$@"; do
   echo "$out" | grep -E "VIOLATION|MACHINERY|KNOWN" | head -${LINES_SHOWN:-3}
   echo "$out" | grep -A1 "^VIOLATION" | grep -v "^VIOLATION\|^--" | head -2
 done
-cd /repo && git checkout -- . 
+cd /repo && git checkout -- . && git clean -fdq
